@@ -97,6 +97,34 @@ def _work_witness(job):
         return {"ok": False, "error": traceback.format_exc()}
 
 
+def _work_seq(job):
+    """Histories without overlap through two long-lived store objects (two processes in turn)."""
+    _quiet()
+    from . import racedriver as rd
+    try:
+        rng = random.Random(job["seed"])
+        tmpl = rd.Template(job["kind"], {"a": 1})
+        out = []
+        try:
+            for _ in range(job["n"]):
+                steps = []
+                for _k in range(rng.randint(3, 7)):
+                    if rng.random() < 0.7:
+                        op = {"t": "put", "n": rng.choice("aabbc"), "b": rng.choice([1, 2, 2, 3, 5]),
+                              "cond": rng.choice([0, 0, 0, 1, 2, 3])}
+                    else:
+                        op = {"t": "del", "n": rng.choice("abc"), "b": 0, "cond": rng.choice([0, 0, 1, 2])}
+                    steps.append((rng.randint(0, 1), op))
+                r = rd.run_sequential(tmpl, steps)
+                r["pair"] = "seq"
+                out.append(r)
+        finally:
+            tmpl.close()
+        return {"ok": True, "runs": out}
+    except Exception:
+        return {"ok": False, "error": traceback.format_exc()}
+
+
 def _work_http(job):
     _quiet()
     from . import httprace
@@ -227,12 +255,16 @@ def run(prop, tier, seed, replay=None):
         hjobs = [{"pairs": [p], "stride": 2 if quick else 1} for p in hp]
         # the witness schedule of every listed (open) finding, re-run as recorded
         wjobs = [{"dev": d, "witness": e["witness"]} for d, e in sorted(devs.items()) if e.get("witness")]
+        # no overlap at all, two store objects in turn (caches of one process vs. writes of the other)
+        sjobs = [{"kind": kind, "n": 60 if quick else 400, "seed": rng.randrange(1 << 30)}
+                 for kind in ("tree", "bare") for _ in range(4)]
         with multiprocessing.get_context("fork").Pool(15) as pool:
             outs = pool.map(_work, jobs, chunksize=1)
             houts = pool.map(_work_http, hjobs, chunksize=1)
             wouts = pool.map(_work_witness, wjobs, chunksize=1)
+            souts = pool.map(_work_seq, sjobs, chunksize=1)
         runs = []
-        for o in outs + houts + wouts:
+        for o in outs + houts + wouts + souts:
             if not o["ok"]:
                 common.machinery_failure("harness exception:\n" + o["error"])
             runs.extend(o["runs"])
@@ -246,6 +278,16 @@ def run(prop, tier, seed, replay=None):
     samples = []
     for r in runs:
         v = verdicts[r["id"]]
+        if r["pair"] == "seq":
+            classes.setdefault((r["kind"], "seq-" + v["clause"]), 0)
+            classes[(r["kind"], "seq-" + v["clause"])] += 1
+            if v["k"] == "viol":
+                rep.violation("%s: %s steps=%s results=%s final=%s" % (
+                    v["dev"], v["clause"], json.dumps(list(zip(r["who"], r["ops"]))), json.dumps(r["res"]),
+                    json.dumps(r["final"])), {"property": prop, "verdict": v, "run": r})
+            elif v["k"] == "known":
+                rep.known_finding(v["dev"], devs.get(v["dev"], {}).get("what", v["dev"]))
+            continue
         key = (r["kind"], r["pair"], "same" if r["ops"]["A"]["n"] == r["ops"]["B"]["n"] else "diff",
                r["res"]["A"], r["res"]["B"])
         nontrivial.add(key + (json.dumps(r["final"], sort_keys=True),))
@@ -273,7 +315,7 @@ def run(prop, tier, seed, replay=None):
         first = {}
         for r in runs:
             v = verdicts[r["id"]]
-            if v["k"] in ("known", "viol") and v["dev"] not in first and r.get("level") != "http":
+            if v["k"] in ("known", "viol") and v["dev"] not in first and r.get("level") != "http" and r["pair"] != "seq":
                 first[v["dev"]] = {"kind": r["kind"], "shared": r["shared"], "ops": r["ops"], "plan": r["plan"],
                                    "pair": r["pair"]}
         os.makedirs(os.path.join(common.OUT_DIR, "witness"), exist_ok=True)
